@@ -14,9 +14,23 @@
   * `expArg_second_not_ref` / `mapArg_first_not_ref`: a *plain* expression where a reference is wanted is reported as
     invalid-type (and `sort_by(a, b, c)` is reported as invalid-type, not arity: two faults, one is reported).
 
-  ## B. classification of the failures of the eager builtins (`applyFn_err_classification`, `invalidValue_only_from`,
-     `notANumber_only_from`)
+  ## B. classification of the failures of the eager builtins
+
+  * `applyFn_err_classification`: on an argument list of its arity a builtin fails with exactly one of invalid-type,
+    invalid-value, not-a-number; except `to_string` (evaluation-failed) and `from_items` on a map-ordered array (the
+    set of invalid-type and invalid-value: a counterexample to the unqualified statement is proved);
+  * `invalidValue_only_from`: only the builtins with a count / width / position argument and `from_items` report
+    invalid-value (each of them does: examples); `notANumber_only_from`: only `sum` and `avg` report not-a-number.
+
   ## C. value specifications
+
+  `length_*`, `reverse_array`, `reverse_string` (code points), `join_spec`, `keys_spec` / `values_spec` / `items_spec`,
+  `bytesContains_iff` + `contains_*`, `startsWith_spec`, `endsWith_spec`, `toArray_*`, `toString_*`, `toNumber_*`,
+  `notNull_first` / `notNull_all_null` (first non-null, later arguments not evaluated), `zipRows_spec` + `zip_spec` +
+  `zipCount_le` / `zipCount_mem` (transposition truncated to the shortest argument), `mapArray_spec` / `map_spec`
+  (caller's scope), `groupBy_empty` (null), `groupBy_spec`, `fromItems_last_wins`, `findFirst_empty_pattern` vs
+  `findFirstFrom_empty_pattern` (null vs 0), `isSpaceRune_iff`, `trimLeftF_codepoints`, `trimRightF_codepoints`,
+  `trimSpace_spec`, `trim_spec`.
 -/
 import Jmes.Properties.C04G
 import Jmes.Proofs.C08BLemmas
@@ -638,5 +652,610 @@ theorem notANumber_only_from (f : Fn) (args : List Val) {cs : List Cat} (h : app
           first | exact Sat.failed | apply toStringV_rt | apply fromItems_rt | fn_sat))
 
 end classification
+
+/-! ## C. value specifications -/
+section specs
+open Jmes.Utf8
+
+/-! ### `length` -/
+
+/-- `length`: the number of elements of an array, of members of an object, of code points of a string -/
+theorem length_array (t : ATag) (xs : List Val) : length (.arr t xs) = .ok (.num (.int .i64 xs.length)) := rfl
+theorem length_object (kvs : List (Bytes × Val)) : length (.obj kvs) = .ok (.num (.int .i64 kvs.length)) := rfl
+theorem length_string (s : Bytes) : length (.str s) = .ok (.num (.int .i64 (runeCount s))) := rfl
+/-- … for the UTF-8 encoding of the code points `rs`, their number (not the byte length) -/
+theorem length_string_codepoints (rs : List Nat) (h : Scalars rs) :
+    length (.str (encodeAll rs)) = .ok (.num (.int .i64 rs.length)) := by
+  rw [length_string, runeCount_encodeAll rs h]
+example : length (.str [0xC3, 0xA9]) = .ok (.num (.int .i64 1)) := rfl
+example : length (.arr .plain [.null, .null]) = .ok (.num (.int .i64 2)) := rfl
+
+/-! ### `reverse` -/
+
+theorem reverse_array (xs : List Val) : reverse (.arr .plain xs) = .ok (.arr .plain xs.reverse) := rfl
+
+theorem length_le_encodeAll : ∀ rs : List Nat, rs.length ≤ (encodeAll rs).length
+  | [] => Nat.le_refl _
+  | c :: rs => by
+    rw [encodeAll_cons, List.length_append, List.length_cons]
+    have := encodeRune_length_pos c
+    have := length_le_encodeAll rs
+    omega
+
+/-- `reverse` of a string reverses its code points (not its bytes) -/
+theorem reverse_string (rs : List Nat) (h : Scalars rs) :
+    reverse (.str (encodeAll rs)) = .ok (.str (encodeAll rs.reverse)) := by
+  have := reverseRunes_encodeAll rs.reverse h.reverse (encodeAll rs).length
+    (by rw [List.length_reverse]; exact length_le_encodeAll rs)
+  rw [List.reverse_reverse] at this
+  simp only [reverse, this]
+example : reverse (.str [0x61, 0xC3, 0xA9]) = .ok (.str [0xC3, 0xA9, 0x61]) := rfl
+
+/-! ### `join` -/
+
+theorem allStrings_map_str : ∀ ss : List Bytes, allStrings (ss.map Val.str) = some ss
+  | [] => rfl
+  | s :: ss => by simp [allStrings, allStrings_map_str ss]
+
+/-- the strings separated by `sep` -/
+theorem joinStrs_eq_intersperse (sep : Bytes) : ∀ ss : List Bytes, joinStrs sep ss = (ss.intersperse sep).flatten
+  | [] => rfl
+  | [s] => by simp [joinStrs]
+  | s :: t :: rest => by
+    have ih := joinStrs_eq_intersperse sep (t :: rest)
+    simp only [joinStrs, ih, List.intersperse, List.flatten_cons, List.append_assoc]
+
+/-- **`join(sep, [s₁, …, sₙ])` = `s₁ sep s₂ sep … sₙ`** -/
+theorem join_spec (sep : Bytes) (ss : List Bytes) :
+    join (.str sep) (.arr .plain (ss.map Val.str)) = .ok (.str ((ss.intersperse sep).flatten)) := by
+  simp only [join, allStrings_map_str, enum2, ← joinStrs_eq_intersperse]
+  rfl
+example : join (.str [0x2C]) (.arr .plain [.str [0x61], .str [0x62]]) = .ok (.str [0x61, 0x2C, 0x62]) := rfl
+
+/-! ### `keys`, `values`, `items` -/
+
+/-- the member names / values / `[name, value]` pairs, as an array whose order Go does not specify (tag `enum`;
+    `C15.keys_perm` & co: the result depends on the member list up to a permutation only) -/
+theorem keys_spec (kvs : List (Bytes × Val)) : keys (.obj kvs) = .ok (.arr .enum (kvs.map fun kv => .str kv.1)) := rfl
+theorem values_spec (kvs : List (Bytes × Val)) : values (.obj kvs) = .ok (.arr .enum (kvs.map Prod.snd)) := rfl
+theorem items_spec (kvs : List (Bytes × Val)) :
+    items (.obj kvs) = .ok (.arr .enum (kvs.map fun kv => .arr .plain [.str kv.1, kv.2])) := rfl
+example : keys (.obj [([0x61], .null)]) = .ok (.arr .enum [.str [0x61]]) := rfl
+
+/-! ### `contains`, `starts_with`, `ends_with` -/
+
+/-- `bytesContains s p`: `p` occurs in `s` as a contiguous substring -/
+theorem bytesContains_iff : ∀ (s p : Bytes), bytesContains s p = true ↔ ∃ a b, s = a ++ p ++ b
+  | [], p => by
+    simp only [bytesContains, List.isEmpty_iff]
+    constructor
+    · rintro rfl; exact ⟨[], [], rfl⟩
+    · rintro ⟨a, b, h⟩
+      have := congrArg List.length h
+      simp only [List.length_nil, List.length_append] at this
+      exact List.eq_nil_of_length_eq_zero (by omega)
+  | x :: t, p => by
+    simp only [bytesContains, Bool.or_eq_true, List.isPrefixOf_iff_prefix, bytesContains_iff t p]
+    constructor
+    · rintro (⟨b, hb⟩ | ⟨a, b, h⟩)
+      · exact ⟨[], b, by simpa using hb.symm⟩
+      · exact ⟨x :: a, b, by simp [h]⟩
+    · rintro ⟨a, b, h⟩
+      cases a with
+      | nil => exact Or.inl ⟨b, by simpa using h.symm⟩
+      | cons y a =>
+        simp only [List.cons_append, List.cons.injEq] at h
+        exact Or.inr ⟨a, b, h.2⟩
+
+/-- `contains(string, string)`: substring test; a non-string sought in a string is not found -/
+theorem contains_string (s p : Bytes) : contains (.str s) (.str p) = .ok (.bool (bytesContains s p)) := rfl
+theorem contains_string_nonstring (s : Bytes) (y : Val) (h : ∀ p, y ≠ .str p) :
+    contains (.str s) y = .ok (.bool false) := by
+  cases y <;> first | rfl | exact absurd rfl (h _)
+/-- `contains(array, v)`: some element equals `v` (JMESPath equality, `equal`) -/
+theorem contains_array (xs : List Val) (y : Val) (hx : Val.hasEnum2L xs = false) (hy : y.hasEnum2 = false) :
+    contains (.arr .plain xs) y = .ok (.bool (xs.any fun x => equal x y)) := by
+  simp [contains, hx, hy]
+example : contains (.str [0x61, 0x62, 0x63]) (.str [0x62, 0x63]) = .ok (.bool true) := rfl
+example : contains (.arr .plain [.null, .bool true]) (.bool true) = .ok (.bool true) := rfl
+
+/-- `starts_with(s, p)`: `s = p ++ _` -/
+theorem startsWith_spec (s p : Bytes) :
+    ∃ b, startsWith (.str s) (.str p) = .ok (.bool b) ∧ (b = true ↔ ∃ t, s = p ++ t) := by
+  refine ⟨hasPrefix s p, rfl, ?_⟩
+  simp only [hasPrefix, List.isPrefixOf_iff_prefix]
+  exact ⟨fun ⟨t, h⟩ => ⟨t, h.symm⟩, fun ⟨t, h⟩ => ⟨t, h.symm⟩⟩
+
+/-- `ends_with(s, p)`: `s = _ ++ p` -/
+theorem endsWith_spec (s p : Bytes) :
+    ∃ b, endsWith (.str s) (.str p) = .ok (.bool b) ∧ (b = true ↔ ∃ t, s = t ++ p) := by
+  refine ⟨hasSuffix s p, rfl, ?_⟩
+  simp only [hasSuffix, Bool.and_eq_true, decide_eq_true_eq, beq_iff_eq]
+  constructor
+  · rintro ⟨hl, h⟩
+    refine ⟨s.take (s.length - p.length), ?_⟩
+    conv => lhs; rw [← List.take_append_drop (s.length - p.length) s]
+    rw [h]
+  · rintro ⟨t, rfl⟩
+    simp
+example : startsWith (.str [0x61, 0x62]) (.str [0x61]) = .ok (.bool true) := rfl
+example : endsWith (.str [0x61, 0x62]) (.str [0x61]) = .ok (.bool false) := rfl
+
+/-! ### `to_array`, `to_string`, `to_number` -/
+
+/-- `to_array`: an array is returned as it is, anything else is wrapped -/
+theorem toArray_array (t : ATag) (xs : List Val) : toArray (.arr t xs) = .arr t xs := rfl
+theorem toArray_other (v : Val) (h : ∀ t xs, v ≠ .arr t xs) : toArray v = .arr .plain [v] := by
+  cases v <;> first | rfl | exact absurd rfl (h _ _)
+/-- `to_string`: a string is returned as it is, anything else is its JSON text -/
+theorem toString_string (s : Bytes) : toStringV (.str s) = .ok (.str s) := rfl
+theorem toString_other (v : Val) (h : ∀ s, v ≠ .str s) (he : v.hasEnum2 = false) {b : Bytes}
+    (hj : Json.encode v = .ok b) : toStringV v = .ok (.str b) := by
+  cases v <;> first | exact absurd rfl (h _) | simp only [toStringV, he, hj, Bool.false_eq_true, if_false]
+/-- `to_number`: a number is returned as it is; a string with the syntax of a JSON number is that number; anything
+    else (other strings, booleans, null, arrays, objects) is null -/
+theorem toNumber_number (n : Num) : toNumber (.num n) = .num n := rfl
+theorem toNumber_string (s : Bytes) :
+    toNumber (.str s) = if Json.isValidNumber s then ((Dec.unmarshalJSON s).map fun d => Val.num (.dec d)).getD .null
+      else .null := by
+  simp only [toNumber]
+  split
+  · cases Dec.unmarshalJSON s <;> rfl
+  · rfl
+theorem toNumber_other (v : Val) (h1 : ∀ n, v ≠ .num n) (h2 : ∀ s, v ≠ .str s) : toNumber v = .null := by
+  cases v <;> first | rfl | exact absurd rfl (h1 _) | exact absurd rfl (h2 _)
+example : toArray (.bool true) = .arr .plain [.bool true] := rfl
+example : toStringV (.arr .plain [.bool true, .null]) = .ok (.str [0x5B, 0x74, 0x72, 0x75, 0x65, 0x2C, 0x6E, 0x75, 0x6C, 0x6C, 0x5D]) := rfl
+example : toNumber (.str [0x61]) = .null := rfl
+example : toNumber (.bool true) = .null := rfl
+
+/-! ### `not_null` -/
+
+/-- **`not_null` returns the first argument that is not null** — the arguments after it are not evaluated (their
+    failures do not matter) … -/
+theorem notNull_first (root cur : Val) (env : Env) (pre : List INode) (n : INode) (post : List INode) (v : Val)
+    (hpre : ∀ m ∈ pre, ieval root m cur env = .ok .null) (hn : ieval root n cur env = .ok v)
+    (hv : v.isNull = false) : ieval root (.notNull (pre ++ n :: post)) cur env = .ok v := by
+  simp only [ieval]
+  induction pre with
+  | nil => simp only [List.nil_append, ievalNotNull, hn, Res.ok_bind, hv, Bool.false_eq_true, if_false, Res.pure_eq]
+  | cons m pre ih =>
+    have hm := hpre m (by simp)
+    simp only [List.cons_append, ievalNotNull, hm, Res.ok_bind, Val.isNull, if_true]
+    exact ih (fun x hx => hpre x (by simp [hx]))
+
+/-- … and null when every argument is null -/
+theorem notNull_all_null (root cur : Val) (env : Env) (args : List INode)
+    (h : ∀ m ∈ args, ieval root m cur env = .ok .null) : ieval root (.notNull args) cur env = .ok .null := by
+  simp only [ieval]
+  induction args with
+  | nil => rfl
+  | cons m rest ih =>
+    have hm := h m (by simp)
+    simp only [ievalNotNull, hm, Res.ok_bind, Val.isNull, if_true]
+    exact ih (fun x hx => h x (by simp [hx]))
+example : evaluate (.notNull [.lit .null, .lit (.bool false), .variable [0x78]]) .null = .ok (.bool false) := rfl
+
+/-! ### `zip` -/
+
+theorem getD_tail (c : List Val) (i : Nat) : c.tail.getD i .null = c.getD (i + 1) .null := by
+  cases c <;> simp
+
+/-- the `i`-th row holds the `i`-th element of every column -/
+theorem zipRows_spec : ∀ (n : Nat) (cols : List (List Val)),
+    zipRows n cols = (List.range n).map fun i => Val.arr .plain (cols.map fun c => c.getD i .null)
+  | 0, _ => rfl
+  | n + 1, cols => by
+    rw [zipRows, zipRows_spec n, List.range_succ_eq_map, List.map_cons, List.map_map]
+    congr 1
+    · congr 1
+      apply List.map_congr_left
+      intro c _
+      cases c <;> rfl
+    · apply List.map_congr_left
+      intro i _
+      simp only [Function.comp, List.map_map]
+      congr 1
+      apply List.map_congr_left
+      intro c _
+      exact getD_tail c i
+
+/-- the number of rows of `zip`: the length of the shortest argument -/
+def zipCount : List (List Val) → Nat
+  | [] => 0
+  | c :: cs => cs.foldl (fun m x => min m x.length) c.length
+
+theorem foldl_min_le (cs : List (List Val)) : ∀ m, cs.foldl (fun m x => min m x.length) m ≤ m ∧
+    ∀ c ∈ cs, cs.foldl (fun m x => min m x.length) m ≤ c.length := by
+  induction cs with
+  | nil => intro m; exact ⟨Nat.le_refl _, fun _ h => by cases h⟩
+  | cons c cs ih =>
+    intro m
+    simp only [List.foldl_cons]
+    have := ih (min m c.length)
+    refine ⟨Nat.le_trans this.1 (Nat.min_le_left _ _), fun x hx => ?_⟩
+    rcases List.mem_cons.mp hx with rfl | hx
+    · exact Nat.le_trans this.1 (Nat.min_le_right _ _)
+    · exact this.2 x hx
+
+/-- `zipCount` is a lower bound of every length (so every row is made of actual elements) … -/
+theorem zipCount_le {cols : List (List Val)} : ∀ c ∈ cols, zipCount cols ≤ c.length := by
+  cases cols with
+  | nil => intro _ h; cases h
+  | cons c cs =>
+    intro x hx
+    rcases List.mem_cons.mp hx with rfl | hx
+    · exact (foldl_min_le cs _).1
+    · exact (foldl_min_le cs _).2 x hx
+
+theorem foldl_min_mem (cs : List (List Val)) : ∀ m, cs.foldl (fun m x => min m x.length) m = m ∨
+    ∃ c ∈ cs, cs.foldl (fun m x => min m x.length) m = c.length := by
+  induction cs with
+  | nil => intro m; exact Or.inl rfl
+  | cons c cs ih =>
+    intro m
+    simp only [List.foldl_cons]
+    rcases ih (min m c.length) with h | ⟨x, hx, h⟩
+    · rcases Nat.le_total m c.length with hm | hm
+      · rw [Nat.min_eq_left hm] at h ⊢; exact Or.inl h
+      · rw [Nat.min_eq_right hm] at h ⊢; exact Or.inr ⟨c, by simp, h⟩
+    · exact Or.inr ⟨x, by simp [hx], h⟩
+
+/-- … and it is attained -/
+theorem zipCount_mem {cols : List (List Val)} (h : cols ≠ []) : ∃ c ∈ cols, zipCount cols = c.length := by
+  cases cols with
+  | nil => exact absurd rfl h
+  | cons c cs =>
+    rcases foldl_min_mem cs c.length with h | ⟨x, hx, h⟩
+    · exact ⟨c, by simp, h⟩
+    · exact ⟨x, by simp [hx], h⟩
+
+theorem zipArgs_plain : ∀ cols : List (List Val), zipArgs (cols.map (Val.arr .plain)) = .ok cols
+  | [] => rfl
+  | c :: cs => by simp [zipArgs, zipArgs_plain cs, enum2]
+
+/-- **`zip(a₁, …, aₙ)` is the transposition, truncated to the shortest argument**: row `i` (for `i` below the minimum
+    length) is `[a₁[i], …, aₙ[i]]` -/
+theorem zip_spec (root cur : Val) (env : Env) (args : List INode) (cols : List (List Val))
+    (h : ievalZip root args cur env = .ok (cols.map (Val.arr .plain))) :
+    ieval root (.zip args) cur env =
+      .ok (.arr .plain ((List.range (zipCount cols)).map fun i => Val.arr .plain (cols.map fun c => c.getD i .null))) := by
+  simp only [ieval, h, Res.ok_bind, zipArgs_plain]
+  cases cols with
+  | nil => rfl
+  | cons c cs => simp only [Res.pure_eq, zipRows_spec, zipCount]
+example : evaluate (.zip [.lit (.arr .plain [.bool true, .bool false]), .lit (.arr .plain [.null])]) .null =
+    .ok (.arr .plain [.arr .plain [.bool true, .null]]) := rfl
+
+/-! ### `map` -/
+
+theorem mapAll_ok {f : Val → Res Val} {g : Val → Val} : ∀ xs : List Val, (∀ x ∈ xs, f x = .ok (g x)) →
+    mapAll f xs = .ok (xs.map g)
+  | [], _ => rfl
+  | x :: xs, h => by
+    simp only [mapAll, h x (by simp), Res.ok_bind, mapAll_ok xs (fun y hy => h y (by simp [hy])), Res.pure_eq,
+      List.map_cons]
+
+/-- `map` applies the function to every element and keeps every result (nulls included) -/
+theorem mapArray_spec {f : Val → Res Val} {g : Val → Val} (xs : List Val) (h : ∀ x ∈ xs, f x = .ok (g x)) :
+    mapArray f (.arr .plain xs) = .ok (.arr .plain (xs.map g)) := by
+  simp only [mapArray, mapAll_ok xs h, Res.ok_bind, Res.pure_eq, widen, ATag.derived]
+
+/-- **`map(&e, a)`**: `e` is evaluated on every element of the value of `a`, *with the caller's scope* (`env`, and the
+    same root), and all results are kept -/
+theorem map_spec (root cur : Val) (env : Env) (e a : INode) (xs : List Val) (g : Val → Val)
+    (ha : ieval root a cur env = .ok (.arr .plain xs)) (he : ∀ x ∈ xs, ieval root e x env = .ok (g x)) :
+    ieval root (.map e a) cur env = .ok (.arr .plain (xs.map g)) := by
+  simp only [ieval, ha, Res.ok_bind]
+  exact mapArray_spec xs he
+/-- `map(&x, a)` on a non-array: invalid-type -/
+theorem map_non_array (f : Val → Res Val) (v : Val) (h : ∀ t xs, v ≠ .arr t xs) : mapArray f v = .err [.invalidType] := by
+  cases v <;> first | rfl | exact absurd rfl (h _ _)
+example : evaluate (.map (.variable [0x78]) (.lit (.arr .plain [.null, .null]))) .null = .err [.undefinedVariable] := rfl
+example : ieval .null (.map (.variable [0x78]) (.lit (.arr .plain [.null, .null]))) .null [([0x78], .bool true)] =
+    .ok (.arr .plain [.bool true, .bool true]) := rfl
+
+/-! ### `group_by` -/
+
+/-- `group_by` of an empty array is **null** in this implementation (the standard's result type is an object; the
+    compliance corpus has no case) -/
+theorem groupBy_empty (f : Val → Res Val) (t : ATag) : groupBy f (.arr t []) = .ok .null := rfl
+
+/-- the group of a key -/
+def groupOf (key : Bytes) (gs : List (Bytes × List Val)) : List Val := ((gs.lookup key).getD [])
+
+/-- the invariant of the accumulator: keys strictly increasing -/
+def GS (gs : List (Bytes × List Val)) : Prop := gs.Pairwise fun a b => bytesLt a.1 b.1 = true
+
+theorem lookup_none_of_lt (s : Bytes) : ∀ (l : List (Bytes × List Val)), (∀ p ∈ l, bytesLt s p.1 = true) →
+    l.lookup s = none
+  | [], _ => rfl
+  | (k, g) :: rest, h => by
+    have hk : bytesLt s k = true := h (k, g) (by simp)
+    have hne : (s == k) = false := by
+      simp only [beq_eq_false_iff_ne, ne_eq]
+      intro he; subst he; rw [bytesLt_irrefl] at hk; cases hk
+    simp only [List.lookup, hne]
+    exact lookup_none_of_lt s rest (fun p hp => h p (by simp [hp]))
+
+theorem mem_groupInsert_key {s : Bytes} {v : Val} : ∀ {gs : List (Bytes × List Val)} {p : Bytes × List Val},
+    p ∈ groupInsert s v gs → p.1 = s ∨ ∃ q ∈ gs, q.1 = p.1
+  | [], p, h => by
+    simp only [groupInsert, List.mem_singleton] at h
+    exact Or.inl (by rw [h])
+  | (k, g) :: rest, p, h => by
+    simp only [groupInsert] at h
+    split at h
+    · next hsk =>
+      rcases List.mem_cons.mp h with rfl | h
+      · exact Or.inl hsk.symm
+      · exact Or.inr ⟨p, by simp [h], rfl⟩
+    · split at h
+      · rcases List.mem_cons.mp h with rfl | h
+        · exact Or.inl rfl
+        · exact Or.inr ⟨p, h, rfl⟩
+      · rcases List.mem_cons.mp h with rfl | h
+        · exact Or.inr ⟨(k, g), by simp, rfl⟩
+        · rcases mem_groupInsert_key h with h | ⟨q, hq, h⟩
+          · exact Or.inl h
+          · exact Or.inr ⟨q, by simp [hq], h⟩
+
+theorem groupInsert_GS (s : Bytes) (v : Val) : ∀ {gs : List (Bytes × List Val)}, GS gs → GS (groupInsert s v gs)
+  | [], _ => by simp [groupInsert, GS]
+  | (k, g) :: rest, h => by
+    have h' := List.pairwise_cons.mp h
+    simp only [groupInsert]
+    split
+    · exact List.pairwise_cons.mpr ⟨fun p hp => h'.1 p hp, h'.2⟩
+    · next hsk =>
+      split
+      · next hlt =>
+        refine List.pairwise_cons.mpr ⟨fun p hp => ?_, h⟩
+        rcases List.mem_cons.mp hp with rfl | hp
+        · exact hlt
+        · exact bytesLt_trans hlt (h'.1 p hp)
+      · next hnlt =>
+        have hks : bytesLt k s = true := by
+          rcases bytesLt_total s k with h1 | h1 | h1
+          · exact absurd h1 hnlt
+          · exact absurd h1 hsk
+          · exact h1
+        refine List.pairwise_cons.mpr ⟨fun p hp => ?_, groupInsert_GS s v h'.2⟩
+        rcases mem_groupInsert_key hp with h1 | ⟨q, hq, h1⟩
+        · show bytesLt k p.1 = true
+          rw [h1]; exact hks
+        · show bytesLt k p.1 = true
+          rw [← h1]; exact h'.1 q hq
+
+theorem groupOf_groupInsert (key s : Bytes) (v : Val) : ∀ (gs : List (Bytes × List Val)), GS gs →
+    groupOf key (groupInsert s v gs) = if key = s then groupOf key gs ++ [v] else groupOf key gs
+  | [], _ => by
+    by_cases h : key = s
+    · subst h; simp [groupOf, groupInsert, List.lookup]
+    · have : (key == s) = false := by simpa using h
+      simp [groupOf, groupInsert, List.lookup, this, h]
+  | (k, g) :: rest, hgs => by
+    have h' := List.pairwise_cons.mp hgs
+    have ih := groupOf_groupInsert key s v rest h'.2
+    simp only [groupOf] at ih ⊢
+    simp only [groupInsert]
+    by_cases h1 : s = k
+    · subst h1
+      simp only [if_true, List.lookup]
+      by_cases h : key = s
+      · subst h; simp
+      · have : (key == s) = false := by simpa using h
+        simp [this, h]
+    · simp only [h1, if_false]
+      by_cases h2 : bytesLt s k = true
+      · simp only [h2, if_true, List.lookup]
+        by_cases h : key = s
+        · subst h
+          have : (key == k) = false := by simpa using h1
+          have hn : rest.lookup key = none :=
+            lookup_none_of_lt key rest (fun p hp => bytesLt_trans h2 (h'.1 p hp))
+          simp [this, hn]
+        · have : (key == s) = false := by simpa using h
+          simp [this, h]
+      · rw [if_neg h2]
+        simp only [List.lookup]
+        by_cases h3 : key = k
+        · subst h3
+          have : key ≠ s := fun h => h1 h.symm
+          simp [this]
+        · have : (key == k) = false := by simpa using h3
+          simp only [this, ih]
+
+theorem groupLoop_ok {f : Val → Res Val} {k : Val → Bytes} : ∀ (xs : List Val) (acc : List (Bytes × List Val)),
+    GS acc → (∀ x ∈ xs, f x = .ok (.str (k x))) →
+    ∃ gs, groupLoop f xs acc = .ok gs ∧ GS gs ∧
+      ∀ key, groupOf key gs = groupOf key acc ++ xs.filter fun x => k x == key
+  | [], acc, ha, _ => ⟨acc, rfl, ha, fun _ => by simp⟩
+  | x :: xs, acc, ha, h => by
+    obtain ⟨gs, h1, hg, h2⟩ := groupLoop_ok (f := f) (k := k) xs (groupInsert (k x) x acc) (groupInsert_GS _ _ ha)
+      (fun y hy => h y (by simp [hy]))
+    refine ⟨gs, by simp only [groupLoop, h x (by simp), Res.ok_bind, h1], hg, fun key => ?_⟩
+    rw [h2 key, groupOf_groupInsert _ _ _ _ ha]
+    by_cases hk : key = k x
+    · subst hk; simp
+    · have : (k x == key) = false := by simpa using fun h' => hk h'.symm
+      simp [hk, this]
+
+/-- **`group_by(a, &e)`** on a non-empty array whose keys are all strings: an object whose member `key` is the array
+    of the elements with that key, in their original order -/
+theorem groupBy_spec {f : Val → Res Val} {k : Val → Bytes} (xs : List Val) (hne : xs ≠ [])
+    (h : ∀ x ∈ xs, f x = .ok (.str (k x))) :
+    ∃ gs, groupBy f (.arr .plain xs) = .ok (.obj (gs.map fun kg => (kg.1, Val.arr .plain kg.2))) ∧
+      ∀ key, groupOf key gs = xs.filter fun x => k x == key := by
+  obtain ⟨gs, h1, _, h2⟩ := groupLoop_ok (f := f) (k := k) xs [] List.Pairwise.nil h
+  refine ⟨gs, ?_, fun key => by rw [h2 key]; simp [groupOf]⟩
+  have : xs.isEmpty = false := by cases xs <;> first | rfl | exact absurd rfl hne
+  simp only [groupBy, this, Bool.false_eq_true, if_false, h1, Res.ok_bind, Res.pure_eq, widen, ATag.derived]
+example : groupBy (fun v => .ok v) (.arr .plain [.str [0x62], .str [0x61], .str [0x62]]) =
+    .ok (.obj [([0x61], .arr .plain [.str [0x61]]), ([0x62], .arr .plain [.str [0x62], .str [0x62]])]) := rfl
+
+/-! ### `from_items`: a repeated key keeps its last value -/
+
+theorem fromItemsLoop_pairs : ∀ (ps : List (Bytes × Val)) (acc : List (Bytes × Val)),
+    fromItemsLoop (ps.map fun p => Val.arr .plain [.str p.1, p.2]) acc =
+      .ok (ps.foldl (fun a p => objInsert p.1 p.2 a) acc)
+  | [], _ => rfl
+  | p :: ps, acc => by
+    simp only [List.map_cons, fromItemsLoop, enum2, List.foldl_cons]
+    exact fromItemsLoop_pairs ps _
+
+theorem lookup_foldl_insert (k : Bytes) : ∀ (ps : List (Bytes × Val)) (acc : List (Bytes × Val)),
+    objLookup k (ps.foldl (fun a p => objInsert p.1 p.2 a) acc) =
+      match ps.reverse.find? (fun p => p.1 == k) with
+      | some p => some p.2
+      | none => objLookup k acc
+  | [], _ => rfl
+  | p :: ps, acc => by
+    rw [List.foldl_cons, lookup_foldl_insert k ps, List.reverse_cons, List.find?_append]
+    cases h : ps.reverse.find? (fun p => p.1 == k) with
+    | some q => rfl
+    | none =>
+      simp only [Option.none_or, List.find?_cons, List.find?_nil, objLookup_objInsert]
+      by_cases hk : k = p.1
+      · subst hk; simp
+      · have : (p.1 == k) = false := by simpa using fun h' => hk h'.symm
+        simp [this, hk]
+
+/-- **`from_items([[k₁, v₁], …, [kₙ, vₙ]])`**: the object in which `k` is bound to the value of the *last* pair with
+    that key (and unbound when there is none) -/
+theorem fromItems_last_wins (ps : List (Bytes × Val)) :
+    ∃ kvs, fromItems (.arr .plain (ps.map fun p => Val.arr .plain [.str p.1, p.2])) = .ok (.obj kvs) ∧
+      ∀ k, objLookup k kvs = (ps.reverse.find? (fun p => p.1 == k)).map Prod.snd := by
+  refine ⟨ps.foldl (fun a p => objInsert p.1 p.2 a) [], ?_, fun k => ?_⟩
+  · simp only [fromItems, fromItemsLoop_pairs, enum2]
+    rfl
+  · rw [lookup_foldl_insert]
+    cases ps.reverse.find? (fun p => p.1 == k) <;> rfl
+example : fromItems (.arr .plain [.arr .plain [.str [0x6B], .bool true], .arr .plain [.str [0x6B], .bool false]]) =
+    .ok (.obj [([0x6B], .bool false)]) := rfl
+
+/-! ### `find_first` / `find_last` with an empty pattern -/
+
+/-- with two arguments an empty pattern (or an empty subject) gives **null** (pinned by the compliance corpus) … -/
+theorem findFirst_empty_pattern (s : Bytes) : findFirst (.str s) (.str []) = .ok .null := by
+  simp [findFirst, strArg]
+theorem findLast_empty_pattern (s : Bytes) : findLast (.str s) (.str []) = .ok .null := by
+  simp [findLast, strArg]
+
+/-- … but with an explicit start position the empty pattern is *found* at that position: `find_first(s, '', 0)` is
+    `0`, not null.  So `find_first(s, p)` and `find_first(s, p, 0)` differ for the empty pattern (`C02.findFirst_default`
+    needs `p ≠ []`); Go behaves the same way. -/
+theorem findFirstFrom_empty_pattern (s : Bytes) :
+    findFirstFrom (.str s) (.str []) (.num (.int .i64 0)) = .ok (.num (.int .i64 0)) := by
+  have h0 : startOffset s 0 = some 0 := by
+    have : ¬ ((0 : Int) > s.length) := by omega
+    simp only [startOffset, Int.lt_irrefl, if_false, this, Int.toNat_zero, runeOffset]
+  have hi : intArg (.num (.int .i64 0)) = .ok 0 := rfl
+  have hx : indexOf (s.drop 0) [] = some 0 := by
+    simp only [List.drop_zero, indexOf]
+    unfold indexOfAux
+    simp
+  simp only [findFirstFrom, findFrom, strArg, Res.ok_bind, hi, h0, Bool.false_eq_true, if_false, hx, Res.pure_eq,
+    runeIndexVal, Nat.add_zero, List.take_zero]
+  rfl
+example : findFirst (.str [0x61]) (.str []) = .ok .null := rfl
+example : findFirstFrom (.str [0x61]) (.str []) (.num (.int .i64 0)) = .ok (.num (.int .i64 0)) := rfl
+
+/-! ### `trim`: the whitespace set, and what is removed -/
+
+/-- the code points removed by `trim(s)` / `trim(s, '')`: Unicode `White_Space` (`unicode.IsSpace`) -/
+theorem isSpaceRune_iff (r : Nat) : isSpaceRune r = true ↔
+    r ∈ [0x09, 0x0A, 0x0B, 0x0C, 0x0D, 0x20, 0x85, 0xA0, 0x1680, 0x2028, 0x2029, 0x202F, 0x205F, 0x3000] ∨
+    (0x2000 ≤ r ∧ r ≤ 0x200A) := by
+  simp only [isSpaceRune, Bool.or_eq_true, beq_iff_eq, Bool.and_eq_true, decide_eq_true_eq, List.mem_cons,
+    List.not_mem_nil, or_false]
+  omega
+
+theorem trimLeftBy_encodeAll (p : Nat → Bool) : ∀ (cs : List Nat), Scalars cs → ∀ fuel, cs.length ≤ fuel →
+    trimLeftBy p fuel (encodeAll cs) = encodeAll (cs.dropWhile p)
+  | [], _, fuel, _ => by cases fuel <;> rfl
+  | c :: cs, h, fuel, hf => by
+    match fuel, hf with
+    | f + 1, hf =>
+      have hne := encodeAll_cons_ne_nil c cs
+      cases hs : encodeAll (c :: cs) with
+      | nil => exact absurd hs hne
+      | cons b bs =>
+        rw [← hs]
+        have hd : decodeRune (encodeAll (c :: cs)) = (c, (encodeRune c).length) := decodeRune_cons c cs h.head
+        have hdrop : (encodeAll (c :: cs)).drop (encodeRune c).length = encodeAll cs := by
+          rw [encodeAll_cons]; exact List.drop_left
+        have step : trimLeftBy p (f + 1) (encodeAll (c :: cs)) =
+            if p c then trimLeftBy p f (encodeAll cs) else encodeAll (c :: cs) := by
+          rw [hs, trimLeftBy, ← hs, hd]
+          · simp only [hdrop]
+          · intro h0; cases h0
+        rw [step, List.dropWhile_cons]
+        split
+        · exact trimLeftBy_encodeAll p cs h.tail f (by simpa using hf)
+        · rfl
+
+/-- **`trim_left` removes the longest prefix of code points in the set** (white space, or the code points of the second
+    argument) -/
+theorem trimLeftF_codepoints (p : Nat → Bool) (cs : List Nat) (h : Scalars cs) :
+    trimLeftF p (encodeAll cs) = encodeAll (cs.dropWhile p) :=
+  trimLeftBy_encodeAll p cs h _ (length_le_encodeAll cs)
+
+
+theorem trimRightBy_encodeAll (p : Nat → Bool) : ∀ (cs : List Nat), Scalars cs → ∀ fuel, cs.length ≤ fuel →
+    trimRightBy p fuel (encodeAll cs.reverse) = encodeAll (cs.dropWhile p).reverse
+  | [], _, fuel, _ => by cases fuel <;> rfl
+  | c :: cs, h, fuel, hf => by
+    match fuel, hf with
+    | f + 1, hf =>
+      have hne := encodeAll_reverse_cons_ne_nil c cs
+      have hd := decodeLastRune_snoc c cs h.head
+      have htake := take_snoc c cs
+      have step : trimRightBy p (f + 1) (encodeAll (c :: cs).reverse) =
+          if p c then trimRightBy p f (encodeAll cs.reverse) else encodeAll (c :: cs).reverse := by
+        cases hs : encodeAll (c :: cs).reverse with
+        | nil => exact absurd hs hne
+        | cons b bs =>
+          rw [trimRightBy, ← hs, hd]
+          · simp only [htake]
+          · intro h0; cases h0
+      rw [step, List.dropWhile_cons]
+      split
+      · exact trimRightBy_encodeAll p cs h.tail f (by simpa using hf)
+      · rfl
+
+/-- **`trim_right` removes the longest suffix of code points in the set** -/
+theorem trimRightF_codepoints (p : Nat → Bool) (cs : List Nat) (h : Scalars cs) :
+    trimRightF p (encodeAll cs) = encodeAll (cs.reverse.dropWhile p).reverse := by
+  have := trimRightBy_encodeAll p cs.reverse h.reverse (encodeAll cs).length
+    (by rw [List.length_reverse]; exact length_le_encodeAll cs)
+  rw [List.reverse_reverse] at this
+  exact this
+
+/-- **`trim(s)`**: the code points of `s` without the leading and the trailing white space -/
+theorem trimSpace_spec (cs : List Nat) (h : Scalars cs) :
+    trimSpace (.str (encodeAll cs)) =
+      .ok (.str (encodeAll (((cs.dropWhile isSpaceRune).reverse.dropWhile isSpaceRune).reverse))) := by
+  have h2 : Scalars (cs.dropWhile isSpaceRune) := fun c hc => h c ((List.dropWhile_sublist _).subset hc)
+  simp only [trimSpace, strArg, Res.ok_bind, Res.pure_eq, trimSpaceS, trimLeftF_codepoints _ _ h,
+    trimRightF_codepoints _ _ h2]
+
+/-- **`trim(s, chars)`** with a non-empty second argument: the same with the code points of `chars` as the set -/
+theorem trim_spec (cs : List Nat) (h : Scalars cs) (cut : Bytes) (hc : cut ≠ []) :
+    trim (.str (encodeAll cs)) (.str cut) =
+      .ok (.str (encodeAll (((cs.dropWhile (inCutset cut)).reverse.dropWhile (inCutset cut)).reverse))) := by
+  have h2 : Scalars (cs.dropWhile (inCutset cut)) := fun c hc => h c ((List.dropWhile_sublist _).subset hc)
+  have he : cut.isEmpty = false := by cases cut <;> first | rfl | exact absurd rfl hc
+  simp only [trim, strArg, Res.ok_bind, Res.pure_eq, he, Bool.false_eq_true, if_false,
+    trimLeftF_codepoints _ _ h, trimRightF_codepoints _ _ h2]
+
+theorem trimSpaceLeft_spec (cs : List Nat) (h : Scalars cs) :
+    trimSpaceLeft (.str (encodeAll cs)) = .ok (.str (encodeAll (cs.dropWhile isSpaceRune))) := by
+  simp only [trimSpaceLeft, strArg, Res.ok_bind, Res.pure_eq, trimLeftF_codepoints _ _ h]
+example : trimSpaceLeft (.str [0x20, 0x09, 0x61, 0x20]) = .ok (.str [0x61, 0x20]) := rfl
+example : trim (.str [0x20, 0x61, 0x20]) (.str []) = .ok (.str [0x61]) := rfl
+example : trim (.str [0x78, 0x61, 0x78]) (.str [0x78]) = .ok (.str [0x61]) := rfl
+
+end specs
 
 end Jmes.C02B
